@@ -657,3 +657,12 @@ def calls_fail_or_return_a_reply(ctx):
             ctx.undecided(f'{f.qualname}:expired deadline raises', f.node, f'the deadline {sorted(deadlines)} is computed, but its comparison was not recognised', f)
         elif n < 1:
             ctx.bad(f'{f.qualname}:expired deadline raises', f.node, 'no comparison of time.time() with the deadline in the receive loop', f)
+
+
+@rule('C16.R9', min_instances=1)
+def reconnect_callbacks_are_walked_over_a_snapshot(ctx):
+    """cross-cutting family (common.iterate_while_mutating) on frappy.io / asynconn: the reconnect callbacks are called from a
+    loop that removes the ones to be cleared - over the live dict that ends with RuntimeError in the middle of a successful
+    reconnect: the callbacks registered later (trigger_polls) never run, polling does not resume"""
+    from sa.rules import common
+    common.iterate_while_mutating(ctx, {'frappy.io', 'frappy.lib.asynconn'})
